@@ -22,12 +22,22 @@ if [ -f "$D/demo.rs" ]; then
   T=$(grep -o 'saito-[A-Za-z0-9_/.-]*\.rs' "$D/demo.rs" | head -1)
   F=$(grep -o 'c[0-9][0-9][a-z0-9_]*_demo' "$D/demo.rs" | head -1)
   echo "== demonstration: appended to $T, filter ${F:-_demo}"
-  cat "$D/demo.rs" >> "$W/$T"
+  if grep -q 'mod c[0-9][0-9][a-z0-9_]*_demo' "$D/demo.rs"; then
+    cat "$D/demo.rs" >> "$W/$T"          # self-contained test module: goes to the end of the file
+  else
+    # a bare test function: goes inside the file's trailing `mod tests { ... }`, before its closing brace
+    python3 - "$W/$T" "$D/demo.rs" <<'PY'
+import sys
+t,d=sys.argv[1],sys.argv[2]
+s=open(t).read(); i=s.rstrip().rfind('}')
+open(t,'w').write(s[:i]+"\n"+open(d).read()+"\n"+s[i:])
+PY
+  fi
   echo "-- WITH the change"
-  (cd "$W" && timeout 1800 cargo test --offline -p "${T%%/*}" --lib -- "${F:-_demo}" --nocapture --test-threads 1 2>&1 | grep -v "^warning\|^ *|\|^ *=\|^ *-->\|^$" | tail -60)
+  (cd "$W" && timeout 1800 cargo test --offline -p "${T%%/*}" --lib -- "${F:-_demo}" --nocapture --test-threads 1 2>&1 | grep -v "^warning\|^ *|\|^ *=\|^ *-->\|^$" | tail -90)
   git -C "$W" apply -R "$P"
   echo "-- WITHOUT the change"
-  (cd "$W" && timeout 1800 cargo test --offline -p "${T%%/*}" --lib -- "${F:-_demo}" --nocapture --test-threads 1 2>&1 | grep -v "^warning\|^ *|\|^ *=\|^ *-->\|^$" | tail -60)
+  (cd "$W" && timeout 1800 cargo test --offline -p "${T%%/*}" --lib -- "${F:-_demo}" --nocapture --test-threads 1 2>&1 | grep -v "^warning\|^ *|\|^ *=\|^ *-->\|^$" | tail -90)
 fi
 } > "$D/verify.txt" 2>&1
 git -C /repo worktree remove --force "$W"
